@@ -4,7 +4,9 @@
 (* State: the network namespaces of a node (ns[0] = host, ns[p] = pod p), as Fib.tla records;   *)
 (* live[a] = the SetupConfig of attachment a (one container interface of one pod) once its      *)
 (* Setup succeeded; owned[a] = the rules, routes and links Setup(a) created in the host         *)
-(* namespace that mention the pod's address or the pod's host-side link.                        *)
+(* namespace that mention the pod's address or the pod's host-side link.  (What an earlier      *)
+(* holder of the address left behind and Setup merely found in place is not the pod's: the      *)
+(* exclusive-ENI datapath, for one, has no means to remove a veth pod's stale rules.)           *)
 (*                                                                                              *)
 (* Setup / Teardown have no effect of their own in this specification: the effect is whatever   *)
 (* the implementation produced (a list of per-link configurations at level 1, the kernel's      *)
@@ -47,6 +49,11 @@
 (*    of every other live attachment is still there and b's delivery clauses still hold.        *)
 (*    Per-ENI state shared by the pods of an ENI (table 1000+ifindex default route, gateway     *)
 (*    host route, addresses on the ENI) is not pod-specific.                                    *)
+(*  * The plugin's fallback DEL (daemon has no allocation record: utils.GenericTearDown only)   *)
+(*    is a teardown variant of its own, TeardownGeneric: it need not remove the pod's rules and *)
+(*    routes.  What it leaves behind stays in ns (nobody's), and a later Setup -- of a pod that  *)
+(*    is given the same address, on the same or on another ENI -- must satisfy every Setup      *)
+(*    clause in spite of it.                                                                    *)
 (*  * A Setup that returns an error promises nothing for that attachment; it must still leave   *)
 (*    the other pods alone.                                                                     *)
 EXTENDS Fib, SequencesExt
@@ -206,6 +213,13 @@ TeardownOk(p, S, gone) ==
     /\ live' = [a \in Atts |-> IF a \in gone THEN NoAtt ELSE live[a]]
     /\ owned' = [a \in Atts |-> IF a \in gone THEN {} ELSE owned[a]]
     /\ G("C13", Judge(TeardownViol(p, S, gone)))
+
+(* the fallback DEL (GenericTearDown alone): the pod is gone, its host-side rules / routes may stay behind; the others are intact *)
+TeardownGeneric(p, S, gone) ==
+    /\ ns' = S
+    /\ live' = [a \in Atts |-> IF a \in gone THEN NoAtt ELSE live[a]]
+    /\ owned' = [a \in Atts |-> IF a \in gone THEN {} ELSE owned[a]]
+    /\ G("C13", Judge(ViolOthers(S, live', gone)))
 
 (* Teardown returned an error: it will be retried; nothing is promised for p, the others must be intact *)
 TeardownFailed(p, S, gone) ==
